@@ -15,6 +15,7 @@ THEOREMS = [
     "Aio.C07.limit_inv",
     "Aio.C07.attempts_counted",
     "Aio.C07.no_leak",
+    "Aio.C07.close_closes_all",
     "Aio.C07.f7_limit_exceeded_unfixed",
     "Aio.C07.f8_lost_wakeup_unfixed",
     "Aio.C07.race_lost_wakeup_unfixed",
